@@ -208,6 +208,41 @@ example : arityMatch ⟨0, 0, false, 0, 0, true⟩ 1 = true ∧ cpyAccepts ⟨0,
 example : CallableArity.Guard ⟨1, 1, true, 0, 0, true⟩ = true ∧ arityMatch ⟨1, 1, true, 0, 0, true⟩ 5 = true := by decide
 example : CallableArity.Guard ⟨2, 0, false, 0, 0, false⟩ = true ∧ arityMatch ⟨2, 0, false, 0, 0, false⟩ 1 = false := by decide
 
+/-- **declared `Callable` values are matched contravariantly, position by position** (every length): the value
+`Callable[[D1..Dm], R]` is accepted for `Callable[[E1..En], R]` iff m = n and every expected argument type `Ei` is
+accepted where the declared `Di` is expected. -/
+theorem callable_args_contravariant (ds es : List CallableArity.Scal) :
+    matchArgs ds es = true ↔ ds.length = es.length ∧ ∀ i (hd : i < ds.length) (he : i < es.length), subS es[i] ds[i] = true := by
+  induction ds generalizing es with
+  | nil =>
+    cases es with
+    | nil => simp [matchArgs]
+    | cons e es => simp [matchArgs]
+  | cons d ds ih =>
+    cases es with
+    | nil => simp [matchArgs]
+    | cons e es =>
+      simp only [matchArgs, Bool.and_eq_true, ih, List.length_cons, Nat.add_right_cancel_iff]
+      constructor
+      · rintro ⟨h0, hl, hr⟩
+        refine ⟨hl, ?_⟩
+        intro i hd he
+        cases i with
+        | zero => simpa using h0
+        | succ i => simpa using hr i (by simpa using hd) (by simpa using he)
+      · rintro ⟨hl, h⟩
+        refine ⟨by simpa using h 0 (by simp) (by simp), hl, ?_⟩
+        intro i hd he
+        have := h (i + 1) (by simpa using hd) (by simpa using he)
+        simpa [List.getElem_cons_succ] using this
+
+/-- `subS` is a preorder (what makes "accepted where expected" compose) -/
+theorem subS_refl (a : CallableArity.Scal) : subS a a = true := by cases a <;> rfl
+theorem subS_trans (a b c : CallableArity.Scal) (h1 : subS a b = true) (h2 : subS b c = true) : subS a c = true := by
+  cases a <;> cases b <;> cases c <;> simp_all [subS]
+
+example : matchArgs [.float, .object] [.int, .str] = true ∧ matchArgs [.int, .str] [.str, .int] = false := by decide
+
 end callable_arity
 
 end PytypeModel.Props.C02
